@@ -326,10 +326,12 @@ def write_ped(path, trios, family="FAM"):
     return path
 
 
-def write_bam(sc, reads, path, read_groups=True, sort=True, extra_tags=None, unmapped=(), rg_per_sample=1):
+def write_bam(sc, reads, path, read_groups=True, sort=True, extra_tags=None, unmapped=(), rg_per_sample=1, rg_ids=None):
     """Write reads (dicts from simulate_reads; optional keys: mapq, tags [(tag, value)], flag) as an indexed BAM.
-    One read group per sample (ID = sample, SM = sample) unless read_groups is False."""
+    One read group per sample (ID = sample, SM = sample) unless read_groups is False.
+    rg_ids: optional {default id -> id written to the file} (read-group ids only mean something inside their file)."""
     import pysam
+    rg_ids = rg_ids or {}
     header = {"HD": {"VN": "1.6", "SO": "coordinate" if sort else "unsorted"},
               "SQ": [{"SN": c, "LN": len(sc.ref[c])} for c in sc.chroms]}
     if read_groups:
@@ -341,11 +343,11 @@ def write_bam(sc, reads, path, read_groups=True, sort=True, extra_tags=None, unm
             if s not in samples:
                 samples.append(s)
         if rg_per_sample <= 1:
-            header["RG"] = [{"ID": s, "SM": s} for s in samples]
+            header["RG"] = [{"ID": rg_ids.get(s, s), "SM": s} for s in samples]
         else:
             # several read groups per sample, interleaved in the header (A.0, B.0, A.1, B.1, ...); a read uses the
             # group given by r["rg"] (index) or, by default, a stable function of its name
-            header["RG"] = [{"ID": f"{s}.{k}", "SM": s} for k in range(rg_per_sample) for s in samples]
+            header["RG"] = [{"ID": rg_ids.get(f"{s}.{k}", f"{s}.{k}"), "SM": s} for k in range(rg_per_sample) for s in samples]
     opmap = {"M": 0, "I": 1, "D": 2, "N": 3, "S": 4, "H": 5, "P": 6, "=": 7, "X": 8}
     tid = {c: i for i, c in enumerate(sc.chroms)}
     rs = list(reads)
@@ -370,10 +372,10 @@ def write_bam(sc, reads, path, read_groups=True, sort=True, extra_tags=None, unm
             tags = []
             if read_groups:
                 if rg_per_sample <= 1:
-                    tags.append(("RG", r["sample"]))
+                    tags.append(("RG", rg_ids.get(r["sample"], r["sample"])))
                 else:
                     k = r.get("rg", sum(map(ord, r["name"])) % rg_per_sample)
-                    tags.append(("RG", f"{r['sample']}.{k}"))
+                    tags.append(("RG", rg_ids.get(f"{r['sample']}.{k}", f"{r['sample']}.{k}")))
             tags += list(r.get("tags", []))
             if extra_tags:
                 tags += list(extra_tags)
